@@ -124,19 +124,38 @@ def _impl_common(spec):
     raise KeyError(k)
 
 
+def _Q(spec, key, kind):
+    """The parameter as the implementation receives it: a plain number, or -- when the spec asks for unit-carrying
+    arguments -- an astropy Quantity in a unit OTHER than the SI base (MHz / kHz / mHz per second / ms), so that every
+    unit conversion the shipped families promise is exercised."""
+    v = spec[key]
+    if not spec.get('units'):
+        return v
+    from astropy import units as u
+    if kind == 'f_abs':
+        return (v * 1e-6) * u.MHz
+    if kind == 'f_rel':
+        return (v * 1e-3) * u.kHz
+    if kind == 'drift':
+        return (v * 1e3) * u.mHz / u.s
+    if kind == 'time':
+        return (v * 1e3) * u.ms
+    raise KeyError(kind)
+
+
 def impl_path(spec):
     import setigen as stg
     k = spec['kind']
     if k == 'constant_path':
-        return stg.constant_path(f_start=spec['f_start'], drift_rate=spec['drift_rate'])
+        return stg.constant_path(f_start=_Q(spec, 'f_start', 'f_abs'), drift_rate=_Q(spec, 'drift_rate', 'drift'))
     if k == 'squared_path':
-        return stg.squared_path(f_start=spec['f_start'], drift_rate=spec['drift_rate'])
+        return stg.squared_path(f_start=_Q(spec, 'f_start', 'f_abs'), drift_rate=_Q(spec, 'drift_rate', 'drift'))
     if k == 'sine_path':
-        return stg.sine_path(f_start=spec['f_start'], drift_rate=spec['drift_rate'],
-                             period=spec['period'], amplitude=spec['amplitude'])
+        return stg.sine_path(f_start=_Q(spec, 'f_start', 'f_abs'), drift_rate=_Q(spec, 'drift_rate', 'drift'),
+                             period=_Q(spec, 'period', 'time'), amplitude=_Q(spec, 'amplitude', 'f_rel'))
     if k == 'simple_rfi_path':
-        return stg.simple_rfi_path(f_start=spec['f_start'], drift_rate=spec['drift_rate'],
-                                   spread=spec['spread'], spread_type=spec['spread_type'],
+        return stg.simple_rfi_path(f_start=_Q(spec, 'f_start', 'f_abs'), drift_rate=_Q(spec, 'drift_rate', 'drift'),
+                                   spread=_Q(spec, 'spread', 'f_rel'), spread_type=spec['spread_type'],
                                    rfi_type=spec['rfi_type'], seed=spec['seed'])
     return _impl_common(spec)
 
@@ -147,12 +166,12 @@ def impl_t_profile(spec):
     if k == 'constant_t_profile':
         return stg.constant_t_profile(level=spec['level'])
     if k == 'sine_t_profile':
-        return stg.sine_t_profile(period=spec['period'], phase=spec['phase'],
+        return stg.sine_t_profile(period=_Q(spec, 'period', 'time'), phase=spec['phase'],
                                   amplitude=spec['amplitude'], level=spec['level'])
     if k == 'periodic_gaussian_t_profile':
         return stg.periodic_gaussian_t_profile(
-            pulse_width=spec['pulse_width'], period=spec['period'], phase=spec['phase'],
-            pulse_offset_width=spec['pulse_offset_width'], pulse_direction=spec['pulse_direction'],
+            pulse_width=_Q(spec, 'pulse_width', 'time'), period=_Q(spec, 'period', 'time'), phase=spec['phase'],
+            pulse_offset_width=_Q(spec, 'pulse_offset_width', 'time'), pulse_direction=spec['pulse_direction'],
             pnum=spec['pnum'], amplitude=spec['amplitude'], level=spec['level'],
             min_level=spec['min_level'], seed=spec['seed'])
     return _impl_common(spec)
@@ -162,17 +181,17 @@ def impl_f_profile(spec):
     import setigen as stg
     k = spec['kind']
     if k == 'box_f_profile':
-        return stg.box_f_profile(width=spec['width'])
+        return stg.box_f_profile(width=_Q(spec, 'width', 'f_rel'))
     if k == 'gaussian_f_profile':
-        return stg.gaussian_f_profile(width=spec['width'])
+        return stg.gaussian_f_profile(width=_Q(spec, 'width', 'f_rel'))
     if k == 'multiple_gaussian_f_profile':
-        return stg.multiple_gaussian_f_profile(width=spec['width'])
+        return stg.multiple_gaussian_f_profile(width=_Q(spec, 'width', 'f_rel'))
     if k == 'lorentzian_f_profile':
-        return stg.lorentzian_f_profile(width=spec['width'])
+        return stg.lorentzian_f_profile(width=_Q(spec, 'width', 'f_rel'))
     if k == 'voigt_f_profile':
-        return stg.voigt_f_profile(g_width=spec['g_width'], l_width=spec['l_width'])
+        return stg.voigt_f_profile(g_width=_Q(spec, 'g_width', 'f_rel'), l_width=_Q(spec, 'l_width', 'f_rel'))
     if k == 'sinc2_f_profile':
-        return stg.sinc2_f_profile(width=spec['width'], width_mode=spec['width_mode'], trunc=spec['trunc'])
+        return stg.sinc2_f_profile(width=_Q(spec, 'width', 'f_rel'), width_mode=spec['width_mode'], trunc=spec['trunc'])
     return _impl_common(spec)
 
 
